@@ -1076,8 +1076,10 @@ namespace xsimd
             batch_type x = y & ::xsimd::bitwise_cast<T>(~m1f);
             exp = (r1 >> constants::nmb<batch_type>()) - constants::maxexponentm1<batch_type>();
             exp = select(batch_bool_cast<typename i_type::value_type>(is_subnormal), exp - i_type(int_type(constants::nmb<batch_type>())), exp);
-            exp = select(batch_bool_cast<typename i_type::value_type>(self != batch_type(0.)), exp, i_type(typename i_type::value_type(0)));
-            return select((self != batch_type(0.)), x | ::xsimd::bitwise_cast<T>(constants::mask2frexp<batch_type>()), self);
+            // zeros, infinities and NaN are returned unchanged with a zero exponent, as std::frexp does
+            auto regular = (self != batch_type(0.)) && isfinite(self);
+            exp = select(batch_bool_cast<typename i_type::value_type>(regular), exp, i_type(typename i_type::value_type(0)));
+            return select(regular, x | ::xsimd::bitwise_cast<T>(constants::mask2frexp<batch_type>()), self);
         }
 
         // from bool
